@@ -23,6 +23,8 @@ pub const BASH_EXCLUDED_VARIABLES: &[&str] = &[
     // variables from Scrut internals
     "__SCRUT_DECLARE_VARS_CMD",
     "__SCRUT_EXIT_CODE",
+    "__SCRUT_INITIAL_ENV",
+    "__SCRUT_NAME",
     "__SCRUT_TEMP_STATE_PATH",
     "__SCRUT_XV",
     // variables set by scrut in every execution
